@@ -30,6 +30,9 @@ def forms():
     f.append(mk('brbs', V(2), V(3))); f.append(mk('brbc', V(7), V(0)))
     f.append(mk('lds', R(16), V(0x60))); f.append(mk('sts', V(0x60), R(16)))
     f.append(mk('lds', R(3), V(0x160))); f.append(mk('sts', V(0x160), R(3)))
+    # every register half and both ends of the one-word form's address field (the reduced core keeps 4 register bits)
+    for r, a in ((20, 0x45), (23, 0x40), (24, 0x40), (27, 0x7f), (31, 0xbf), (31, 0x40)):
+        f.append(mk('lds', R(r), V(a))); f.append(mk('sts', V(a), R(r)))
     for txt, tok in E.PTR:
         for m in ('ld', 'ldd'): f.append(mk(m, R(5), (txt, tok)))
         for m in ('st', 'std'): f.append(mk(m, (txt, tok), R(5)))
